@@ -29,7 +29,10 @@ pub fn farm_expired(w: &World, f: &Farm, now: u64) -> Option<bool> {
     start.checked_mul(1_000_000_000)?;
     let end_plus = start.checked_add(cfg.farm_expiration_time)?;
     end_plus.checked_mul(1_000_000_000)?;
-    Some(f.farm_asset.amount.u128().saturating_sub(f.claimed_amount.u128()) == 0 || end_plus < now)
+    // the contract compares Timestamps (nanosecond resolution): a block time with a sub-second
+    // part is already past a whole-second instant of the same second
+    let past = end_plus < now || (end_plus == now && w.nanos > 0);
+    Some(f.farm_asset.amount.u128().saturating_sub(f.claimed_amount.u128()) == 0 || past)
 }
 
 /// exact penalty fraction min(0.9, base x remaining/duration x multiplier)
